@@ -1374,3 +1374,34 @@ def buckets(case, ans):  # noqa: F811
         out += ["tx:equal-but-differently-typed:" + c for c in _typed_classes(case)]
         return out
     return _single["buckets"](case, ans)
+
+
+RULE += (" TYPED DEFAULTS (kind tx, model Ccp.Model.TypedX, channel `typedx`): Python compares 0 == False == 0.0 == -0.0, 1 == True == 1.0, "
+         "1500 == 1500.0, -1 == -1.0, 7 == 7.0, 65535 == 65535.0 (equal hashes), but result_type(default) depends on the TYPE of the default. "
+         "416 two-query cases (every ordered pair of two members of such a class x str/int/float/IPv4Obj x re_match / re_match_typed / "
+         "re_match_iter_typed / CiscoConfParse.re_match_iter_typed, on a line that does not match), 96 whole-menu sequences (0, False, 0.0, 1, "
+         "True, 1.0, 1500, 1500.0, -1, -1.0, '', None and -0.0, 0.5, 2.25, 7, 7.0, '0', '1', '1500', '1500.0', 'True', ... in order and "
+         "reversed, typed and untyped) and 700 (quick) random cases of 3-8 extractions back to back in ONE impl() call whose defaults walk "
+         "through a class and then the menu (75 % one result type per case, 55 % configs without any match, 15 % untyped_default). The oracle "
+         "decides which line answers as before and, when none does, converts the default AS TYPED with Python's own str / int / float (or "
+         "hands it back as the object it is: bool results are told apart from ints). A float default is sent to the model by its positional "
+         "repr, asserted exact. PAIR STREAM (two LIVE instances; props/pairlib.py, channel `pair`): 500 (quick) cases, two configs from one "
+         "template (B = A with children re-texted / re-indented / commented / swapped / inserted / deleted / moved; options same or one "
+         "changed), BOTH parsed first, then the same 3-8 queries (biased to the recursive iter / list forms on a focus line with children; "
+         "35 % with typed-menu defaults) on corresponding lines in the orders ABA, ABAB, BAB, ABBA, AABA; each judged on its own instance and "
+         "compared with the model's answer for that instance alone.")
+LEVEL_TEXT += (" Defaults of every type (Ccp.Model.TypedX: default = None / str / int / bool / a float given exactly by sign, integer part and "
+               "fraction digits of its positional repr): typedX_old_defaults -- on the old defaults the extended helpers ARE the helpers above; "
+               "iterTypedX_first -- with a first matching line the answer is its converted group, whatever the default; iterTypedX_default / "
+               "matchTypedX_default / rootIterX_default / matchX_default -- when nothing matches the answer is the default itself "
+               "(untyped_default, re_match) or result_type(default) computed from the default as typed; convX_spec -- str(default), int() "
+               "truncating a float towards zero and mapping True/False to 1/0, float() leaving a float alone and mapping True/False to 1.0/0.0, "
+               "IPv4Obj as oracle; default_keeps_its_type -- an int, a float and a bool never have the same str() (an int has no decimal "
+               "point, a float has one, a bool starts with a letter) although 1500 == 1500.0 and 0 == False == 0.0 in Python: an answer "
+               "remembered for one of them is wrong for the others.")
+LEVEL_NOTE += (" Floats as defaults are restricted to those whose repr is positional and exact (|x| < 1e16, finitely many binary digits: "
+               "1500.0, -1.0, 0.5, 2.25, -0.0); inf / nan / exponent forms are not generated. Call ORDER is not in the model (it is a function "
+               "of one request): that an extraction does not depend on earlier extractions in the process, or on another live instance, holds "
+               "for the model by construction and is MEASURED for the code by the back-to-back sequences, the pair stream and the framework's "
+               "mixing pass (seeded change C05e -- a module-level lru_cache(typed=False) around result_type(value) -- is reported with the "
+               "two-query input default=0 then default=False, result_type=str).")
